@@ -980,11 +980,12 @@ def guarded_by(body, site_block, pred, conds=None, _depth=0):
     if conds is None:
         conds = edge_conditions(body)
     removed = set(eid for eid, c in conds.items() if pred(c))
-    if removed:
-        base = frozenset(removed)
-        for eid, c in conds.items():
-            if eid not in removed and c.kind == "bool" and _derived_satisfies(body, c, pred, conds, base):
-                removed.add(eid)
+    # derived conditions of boolean locals - also when NO branch tests the predicate directly (`let ok = a && (x < y); if ok`:
+    # the comparison is assigned, not branched on)
+    base = frozenset(removed)
+    for eid, c in conds.items():
+        if eid not in removed and c.kind == "bool" and _derived_satisfies(body, c, pred, conds, base):
+            removed.add(eid)
     # a branch all of whose outgoing edges satisfy the predicate does not guard anything
     by_src = defaultdict(list)
     for e in body.edges():
